@@ -7,11 +7,14 @@ HARNESSES = [dict(name="subscriber", pkg="./pkg/config/subscriber/", test="TestV
              dict(name="l2gw", pkg="./internal/l2gw/", test="TestVerifC14L2GW", timeout=600,
                   files=[("internal/l2gw/zz_verif_c14_l2gw_test.go", "harness/C14/zz_verif_c14_l2gw_test.go")]),
              dict(name="ipoe", pkg="./internal/ipoe/", test="TestVerifC14IPoE", timeout=600,
-                  files=[("internal/ipoe/zz_verif_c14_ipoe_test.go", "harness/C14/zz_verif_c14_ipoe_test.go")])]
+                  files=[("internal/ipoe/zz_verif_c14_ipoe_test.go", "harness/C14/zz_verif_c14_ipoe_test.go")]),
+             dict(name="configmgr", pkg="./pkg/configmgr/", test="TestVerifC14CM", timeout=900, race=True,
+                  files=[("pkg/configmgr/zz_verif_c14_cm_test.go", "harness/C14/zz_verif_c14_cm_test.go")])]
 
 
 def route(case):
-    return "l2gw" if case.startswith("l2gw ") else "ipoe" if case.startswith("l2fw ") else "subscriber"
+    return ("l2gw" if case.startswith("l2gw ") else "ipoe" if case.startswith("l2fw ") else
+            "configmgr" if case.startswith("cm ") else "subscriber")
 
 RULE = ("parse/cvlan: every string of length <= L (3 quick, 4 thorough) over a 16-symbol alphabet (digits 0 1 4 9, '-', "
         "space, tab, U+00A0, U+2003, U+1680, U+200B (not a space), 'a', 'n', 'y', 'Y', '+'), structured boundary strings, "
@@ -22,7 +25,7 @@ RULE = ("parse/cvlan: every string of length <= L (3 quick, 4 thorough) over a 1
         "S-VLANs x 9 C-VLANs with 3 rebuilds; sweep: random configurations with wide ranges, ALL 4096x4096 pairs looked "
         "up in the harness and compared there with a quadratic reference written in the harness, digest of the whole "
         "table compared with the digest the model computes from ref_lookup over the classes of "
-        "C14_lookup_class_invariant (12 quick / 400 thorough), plus dense sweeps (2 quick / 64 thorough) that together make every S-VLAN and every C-VLAN value an exact index key. l2gw: random configurations with AAA policies on groups and ranges, 45 pairs each pushed through the real internal/l2gw handleTrigger, the published AAA request's group and policy compared with the matched range's (200 quick / 3000 thorough; per-range access-types, a third of the groups mix l2gw and retail ranges); l2fw: the same configurations through the real internal/ipoe forwardToL2GW (hand-off to l2gw iff the matched group has l2gw among its access-types, at group level or on any range). Non-trivial: parse case that is accepted, cfg/sweep/l2gw/l2fw "
+        "C14_lookup_class_invariant (12 quick / 400 thorough), plus dense sweeps (2 quick / 64 thorough) that together make every S-VLAN and every C-VLAN value an exact index key. l2gw: random configurations with AAA policies on groups and ranges, 45 pairs each pushed through the real internal/l2gw handleTrigger, the published AAA request's group and policy compared with the matched range's (200 quick / 3000 thorough; per-range access-types, a third of the groups mix l2gw and retail ranges); l2fw: the same configurations through the real internal/ipoe forwardToL2GW (hand-off to l2gw iff the matched group has l2gw among its access-types, at group level or on any range). cm: sequences of 2-6 candidate configurations (clean, colliding, malformed) committed through the real pkg/configmgr ConfigManager (LoadConfig+Commit; every third sequence starts with LoadStartupConfig+ApplyLoadedConfig of a YAML file) while 3 reader goroutines call LookupSubscriberGroup, built with -race: verdict and answers after every candidate compared with the step model, every concurrent answer checked to be one accepted generation's answer as a whole and generations never to go backwards per reader (24 quick / 300 thorough). Non-trivial: parse case that is accepted, cfg/sweep/l2gw/l2fw "
         "case with at least one match and one miss. Distinct: by case text.")
 TRUSTED = ["strings are modelled as lists of Unicode code points; invalid UTF-8 input is outside the model",
            "strings.ToLower is modelled on ASCII only (no other rune lower-cases to a, n or y: checked for every code "
@@ -188,6 +191,35 @@ def gen_cases(rng, tier, budget):
         cases.append(l2gw_line(groups, lqs))
         if i % 2 == 0:
             cases.append(l2gw_line(groups, lqs, "l2fw"))
+    # the configuration manager: sequences of candidates committed under concurrent lock-free lookups (-race)
+    ncm = 24 if tier == "quick" else 300
+    csv = ["10", "10-12", "11", "12", "9-10", "100", "4094", "11-20", "x", "5000", "10 - 11", "010"]
+    ccv = ["", "any", "10", "20", "ANY", " 10", "0", "4095", "100"]
+    cqs = [(s_, c_) for s_ in (0, 9, 10, 11, 12, 13, 100, 4094) for c_ in (0, 10, 20)]
+    for i in range(ncm):
+        cfgs = []
+        for _ in range(rng.randint(2, 6)):
+            groups = []
+            good = rng.random() < 0.65          # mostly clean candidates, so that generations really change
+            pools = [["10", "10-11", "010"], ["12", "12-13", "11-13"], ["100", " 100 "], ["4094", "9"]]
+            rng.shuffle(pools)
+            for gi, n in enumerate(rng.sample(NAMES, rng.randint(1, 3))):
+                rs = []
+                if good:                        # one S-VLAN pool per group, distinct selectors inside the group
+                    sv = rng.choice(pools[gi])
+                    for cv in rng.sample(["", "10", "20", " 100"], rng.randint(1, 3)):
+                        rs.append((enc(sv), enc(cv)))
+                else:
+                    for _ in range(rng.randint(1, 3)):
+                        rs.append((enc(rng.choice(csv)), enc(rng.choice(ccv))))
+                groups.append((enc(n), rs))
+            cfgs.append(groups)
+        if i % 6 == 0:                          # a start-up file whose groups collide / carry a malformed range
+            bad = [(enc("a"), [(enc("100"), enc("any"))]), (enc("b"), [(enc("100-101"), enc(""))])]
+            if i % 12 == 0:
+                bad = [(enc("a"), [(enc("10"), enc("10")), (enc("4095"), enc(""))])]
+            cfgs[0] = bad
+        cases.append(cm_line("boot" if i % 3 == 0 else "commit", cfgs, cqs))
     # exhaustive 4096 x 4096 sweeps
     nsw = 12 if tier == "quick" else 400
     ends = [1, 2, 3, 100, 101, 255, 256, 2047, 2048, 4000, 4093, 4094]
@@ -228,6 +260,35 @@ def _kv(s):
     return dict(x.split("=", 1) for x in s.split() if "=" in x)
 
 
+def cm_line(mode, cfgs, qs):
+    toks = ["cm", mode, str(len(cfgs))]
+    for groups in cfgs:
+        toks += cfg_line("x", groups).split()[1:]
+    toks.append(str(len(qs)))
+    for a, b in qs:
+        toks += [str(a), str(b)]
+    return " ".join(toks)
+
+
+def parse_cm(t):
+    k = int(t[2])
+    p = 3
+    cfgs = []
+    for _ in range(k):
+        ng = int(t[p])
+        p += 1
+        groups = []
+        for _ in range(ng):
+            name, nr = t[p], int(t[p + 1])
+            p += 2
+            groups.append((name, [(t[p + 2 * j], t[p + 2 * j + 1]) for j in range(nr)]))
+            p += 2 * nr
+        cfgs.append(groups)
+    nq = int(t[p])
+    qs = [(t[p + 1 + 2 * j], t[p + 2 + 2 * j]) for j in range(nq)]
+    return t[1], cfgs, qs
+
+
 def l2gw_line(groups, qs, kind="l2gw"):
     toks = [kind, str(len(groups))]
     for n, gp, ga, rs in groups:
@@ -257,6 +318,9 @@ def parse_l2gw(t):
 
 def nontrivial(case, out):
     k = case.split(" ", 1)[0]
+    if k == "cm":
+        gens = out.split(" | ")[:-1]
+        return any(g.startswith("valid:") for g in gens) and any(g.startswith("rejected:") for g in gens)
     if k == "l2gw":
         r = out.split()
         return "none" in r and any(x != "none" for x in r)
@@ -276,6 +340,17 @@ def nontrivial(case, out):
 
 def classify(case, impl, model):
     k = case.split(" ", 1)[0]
+    if k == "cm":
+        a, b = impl.split(" | "), model.split(" | ")
+        if a[-1] != "conc=ok":
+            return "P", ("a concurrent LookupSubscriberGroup returned an answer that no single published generation gives "
+                         "(or went back to an older generation): %s" % a[-1])
+        d = [i for i, (x, y) in enumerate(zip(a, b)) if x != y]
+        if d and a[d[0]].split(":")[0] != b[d[0]].split(":")[0]:
+            return "P", ("configuration manager: candidate #%d is %s, the property says %s (colliding / malformed candidates "
+                         "are rejected before they are published)" % (d[0], a[d[0]].split(":")[0], b[d[0]].split(":")[0]))
+        return "P", "configuration manager: lookups after candidate #%s differ from the model: impl=%r model=%r" % (
+            d[:1], [a[i] for i in d[:1]], [b[i] for i in d[:1]])
     if k == "l2fw":
         a, b = impl.split(), model.split()
         d = [i for i, (x, y) in enumerate(zip(a, b)) if x != y]
@@ -332,6 +407,18 @@ def shrink(case):
         return
     if t[0] == "cfgnil":
         return
+    if t[0] == "cm":
+        mode, cfgs, qs = parse_cm(t)
+        for i in range(len(cfgs)):
+            if len(cfgs) > 1:
+                yield cm_line(mode, cfgs[:i] + cfgs[i + 1:], qs)
+        for i, groups in enumerate(cfgs):
+            for j in range(len(groups)):
+                yield cm_line(mode, cfgs[:i] + [groups[:j] + groups[j + 1:]] + cfgs[i + 1:], qs)
+        if len(qs) > 1:
+            yield cm_line(mode, cfgs, qs[:len(qs) // 2])
+            yield cm_line(mode, cfgs, qs[len(qs) // 2:])
+        return
     if t[0] in ("l2gw", "l2fw"):
         groups, qs = parse_l2gw(t)
         for i in range(len(groups)):
@@ -368,12 +455,20 @@ def distribution(cases, impl):
          "lookup_misses": 0, "cfgnil": 0, "sweep": 0, "sweep_pairs": 0, "sweep_hits": 0, "sweep_rejected": 0,
          "sweep_rowruns_max": 0, "runes": 0, "runes_code_points": 0, "l2gw": 0, "l2gw_requests": 0, "l2gw_no_request": 0,
          "l2gw_range_policy": 0, "l2gw_group_policy_or_none": 0, "l2gw_mixed_access_groups": 0, "l2gw_group_level_access": 0, "l2fw": 0, "l2fw_fwd": 0,
-         "l2fw_no": 0}
+         "l2fw_no": 0, "cm": 0, "cm_boot": 0, "cm_candidates": 0, "cm_published": 0, "cm_rejected": 0,
+         "cm_boot_rejected": 0}
     seen = set()
     for c, o in zip(cases, impl):
         k = c.split(" ", 1)[0]
         d[k] += 1
-        if k == "l2fw":
+        if k == "cm":
+            gens = o.split(" | ")[:-1]
+            d["cm_boot"] += c.split()[1] == "boot"
+            d["cm_candidates"] += len(gens)
+            d["cm_published"] += sum(g.startswith("valid:") for g in gens)
+            d["cm_rejected"] += sum(g.startswith("rejected:") for g in gens)
+            d["cm_boot_rejected"] += c.split()[1] == "boot" and gens[0].startswith("rejected:")
+        elif k == "l2fw":
             r = o.split()
             d["l2fw_fwd"] += r.count("fwd")
             d["l2fw_no"] += r.count("no")
